@@ -147,8 +147,14 @@ func registerMain(p RegisterParams) {
 	check("after registration")
 	victim := nodes[vrt.Choose(nf, true, "victim")]
 	vrt.Window(true)
-	switch vrt.Choose(7, true, "disturbance") {
+	switch vrt.Choose(8, true, "disturbance") {
 	case 0:
+	case 7:
+		// transient call failures: the next one or two calls to one follower fail (busy handler, lost request),
+		// the connection stays up. A ping is attempted three times: nobody is dropped, the numbering stays.
+		n := 1 + vrt.Choose(2, true, "failed-calls")
+		vrpc.FailCalls(addr(victim.id), n)
+		hist = append(hist, fmt.Sprintf("the next %d call(s) to %s fail", n, victim.id.Name))
 	case 6:
 		// one follower's connection TO the leader breaks while that follower cannot be dialled for a while (its
 		// listener is unreachable; the leader's established connection to it keeps working). The follower
